@@ -2,13 +2,17 @@
 
     A case carries the implementation's observation; [check] compares it with
     the model and evaluates the property's own statement on it. *)
-From Verif Require Import Lib.Base Lib.Json Generated.KeyIdGen Model.KeyId.
+From Verif Require Import Lib.Base Lib.Json Lib.JsonText Generated.KeyIdGen Model.KeyId.
 
 Inductive case :=
 | CRound (k : KeyID) (enc : option json) (dec : option KeyID)
     (* Marshal k = enc (None = error); dec = Unmarshal of the produced text *)
-| CDecode (t : option json) (dec : option KeyID).
+| CDecode (t : option json) (dec : option KeyID)
     (* Unmarshal of a text whose tree is t (None = not valid JSON) *)
+| CText (s : str) (t : option json)
+    (* the text s (valid UTF-8, as code points) tokenised by encoding/json: tree t, None = json.Valid says no *)
+| CPrint (j : json) (s : str).
+    (* encoding/json printed a value whose tree is j as the text s *)
 
 (** The property, evaluated on the implementation's observation. *)
 Definition oracle_round (k : KeyID) (enc : option json) (dec : option KeyID) : bool :=
@@ -67,6 +71,12 @@ Definition check (c : case) : N :=
       if negb (oracle_decode t dec) then 2
       else if negb (modelable t) then 0
       else if res_eqb (unmarshal t) dec then 0 else 1
+  | CText s t =>
+      (* the Gallina parser reads what Go's decoder reads *)
+      if option_eqb json_eqb (parse s) t then 0 else 1
+  | CPrint j s =>
+      (* the Gallina printer prints what Go's encoder prints *)
+      if str_eqb (print j) s then 0 else 1
   end.
 
 (** Which branch of the model a case reached (input-distribution report). *)
@@ -75,6 +85,8 @@ Definition classify (c : case) : N :=
   | CRound k _ _ =>
       match marshal k with
       | Ok _ => 10 | Err EUnsupportedVersion => 11 | Err _ => 12 end
+  | CText _ t => match t with Some _ => 40 | None => 41 end
+  | CPrint _ _ => 42
   | CDecode t _ =>
       if negb (modelable t) then 29 else
       match unmarshal t with
